@@ -367,6 +367,7 @@ def run(tier, seed):
                     want_kind, m_acc = None, True      # `^e` is never a mutability error
                 hist["accepted" if not rejected else [k for k in errs if k in hist][0]] += 1
                 c.accepted = not rejected
+                c.spec_place = place
                 pay = {"key": "fe:" + C.sha(s), "stream": "front end", "source": s, "chain": c.names,
                        "statement": c.stmt, "path": c.path, "implementation": i or "accepted",
                        "model": m, "spec_place": place}
@@ -402,6 +403,7 @@ def run(tier, seed):
             if tier == "quick":
                 # all chains the spec calls Immut-but-accepted first, then a seeded sample
                 rng.shuffle(pool)
+                pool = [c for c in pool if c.spec_place != "Mut"] + [c for c in pool if c.spec_place == "Mut"]
                 pool = pool[:360]
             bsize = 12
             batches = []
